@@ -627,8 +627,8 @@ int main(int argc, char **argv) {
       }
       wrap_in_api = 0;
       int after = asm_get_offset(x->al);
-      if (rc == 0 && after > x->hiwater)
-        x->hiwater = after;
+      if (rc == 0 && after > before && after > x->hiwater)
+        x->hiwater = after; /* (a call that emitted nothing proves nothing about the mapping) */
       long pfx_bad = 0;
       if (snap)
         for (long i = 0; i < snap; i++)
@@ -682,7 +682,11 @@ int main(int argc, char **argv) {
       long hi = asm_get_offset(x->al);
       uint8_t *b = asm_get_code(x->al);
       uint64_t h = 1469598103934665603ULL;
-      for (long i = 0; i < hi; i++)
+      /* on a library-managed buffer only what successful calls produced is
+       * read: asm_set_offset may point beyond the mapping, and a program
+       * without instructions leaves it there */
+      long lim = (!x->ext && hi > x->hiwater) ? x->hiwater : hi;
+      for (long i = 0; i < lim; i++)
         h = (h ^ b[i]) * 1099511628211ULL;
       oprintf("S %ld %016llx\n", hi, (unsigned long long)h);
     } else if (!strcmp(c, "guard")) {
